@@ -373,6 +373,9 @@ func (p *sparser) primary() SExpr {
 		case "nil":
 			return &SLit{"nil", ""}
 		case "forall", "exists":
+			if p.peek().k != "id" || p.peek().s == "in" {
+				return &SIdent{t.s}
+			}
 			var vars []SParam
 			for {
 				n := p.next()
